@@ -292,6 +292,27 @@ func c02(r *Report) {
 		// the table is the only place a context can be found: the lookup keeps nothing of its
 		// own (a memo of the last hit survives unlink)
 		statelessRule(r, r.W.Fn("", "NewContext"), map[string]bool{"ctxs": true, "ctxmu": true}, "a context remains retrievable through it after unlink removed it from the table")
+		// a failure to produce an ID is reported (a nil session or context would be
+		// dereferenced by the connection loop)
+		for _, n := range []string{"newID", "newSession", "withSession"} {
+			errorsReturnedRule(r, r.W.Fn("", n), false)
+		}
+		// unlink really removes the entry
+		if ul := r.W.Fn("", "unlink"); ul != nil && ul.Blocks != nil {
+			nd := 0
+			for _, in := range instrs(ul) {
+				if c, isD := isBuiltinCall(in, "delete"); isD {
+					if g, isG := unwrapLoad(c.Common().Args[0]).(*ssa.Global); isG && g.Name() == "ctxs" && c.Common().Args[1] == ssa.Value(ul.Params[0]) && c.Block() == ul.Blocks[0] {
+						nd++
+					}
+				}
+			}
+			r.Decide("path", "M.unlink removes the request's entry from the table", nd == 1, "delete(ctxs, req), unconditionally", "unlink does not remove the context: it stays retrievable after the exchange ended, and the table grows by one entry per request", ul.Pos())
+		}
+		// the per-connection and per-exchange state is guarded by its mutex (modifiers run on
+		// the connection goroutine, hijackers and API handlers on others)
+		guardedFieldsRule(r, "", "Session", "mu", nil, "a hijack or a secure mark made on one goroutine is not reliably seen by the connection loop")
+		guardedFieldsRule(r, "", "Context", "mu", nil, "a skip mark set by a modifier is not reliably seen by the proxy")
 	})
 
 	r.Guard("C02.R4", "a modifier error becomes a Warning on the message just modified and processing continues", func() {
